@@ -464,7 +464,7 @@ def main(argv=None) -> int:
         theorems.setdefault(t, w)
     agg['distinct_theorems'] = len(theorems)
     budget = 64 if not thorough else 512
-    maxn = 2 if not thorough else 3
+    maxn = 3
     judge_all(chk, theorems, budget, maxn, agg)
     chk.sample({'theorem': sorted(theorems, key=len)[len(theorems) // 2]})
     chk.set('states', agg.get('states', 0) + len(known))
